@@ -1,6 +1,6 @@
 #!/bin/sh
 # compile one file of the project; prints EXIT <code> when coqc did not succeed (124 = timeout)
-cd /work/c10/coq
+cd $(dirname $0)/../coq
 timeout ${2:-900} coqc -Q . RV -w -notation-overridden,-deprecated-hint-without-locality,-deprecated-instance-without-locality "$1" > /tmp/cq.out 2>&1
 rc=$?
 grep -v "^WARNING conda" /tmp/cq.out | head -${3:-60}
